@@ -867,6 +867,8 @@ def Array_iadd_prefactor_other(self, prefactor, other):
     other gets **transposed** before the action.
     """
     other = other._transpose_same_labels(self._labels)
+    if other is self:
+        other = self.copy(deep=True)  # BLAS axpy is undefined for aliased x and y
     if not optimize(OptimizationFlag.skip_arg_checks):
         if self.rank != other.rank:
             raise ValueError("different rank!")
